@@ -1383,3 +1383,25 @@ EQUIV = [
                 '        min_i = sorted(range(len(G)), key=by_energy)[0]\n'
                 '        max_i = sorted(range(len(G)), key=by_energy, reverse=True)[0]\n')]},
 ]
+# refactorings of review round 3 that wait for the interpreter (/tmp/gaps3/REQ3_C19.md: `ndarray.T` as a view, a slice in
+# a leading position of a subscript store); not read by the self-test - move them into EQUIV once they are silent
+EQUIV_PENDING = [
+    {'name': '1D table filled through the rows of the transposed view',
+     'edits': [(P_, LOOP_1D,
+                '        for column, x in zip(GoRT.T, x_values):\n'
+                '            kwargs[x_name] = x\n'
+                '            for i, (reaction, norm_factor) in enumerate(\n'
+                '                    zip(self.reactions, self.norm_factors)):\n'
+                '                column[i] = reaction.get_delta_GoRT(**kwargs) / norm_factor\n'
+                '            if G_units is not None:\n'
+                "                column *= c.R('{}/K'.format(G_units)) * kwargs['T']\n")]},
+    {'name': '1D unit correction per column through a slice store',
+     'edits': [(P_, LOOP_1D,
+                '        for j, x in enumerate(x_values):\n'
+                '            kwargs[x_name] = x\n'
+                '            for i, (reaction, norm_factor) in enumerate(\n'
+                '                    zip(self.reactions, self.norm_factors)):\n'
+                '                GoRT[i, j] = reaction.get_delta_GoRT(**kwargs) / norm_factor\n'
+                '            if G_units is not None:\n'
+                "                GoRT[:, j] *= c.R('{}/K'.format(G_units)) * kwargs['T']\n")]},
+]
